@@ -183,6 +183,124 @@ def _area(k: Poly, cols: dict[str, int]) -> Poly:
         c("IDX_TOP_Y") - c("IDX_BOTTOM_Y"))
 
 
+def _norm_shift(p: Poly) -> Poly:
+    """A per-bin accumulator `acc[key + c]` reduced over `acc[a:b]` is the
+    accumulator `acc[key]` reduced over `acc[a - c:b - c]` (whether the
+    scratch table is indexed by the bin id or by the bin id minus one is not
+    observable): the constant part of the key is moved into the bounds."""
+    mapping: dict[Any, Poly] = {}
+    for a in all_atoms(p):
+        if a[0] != "slicered" or len(a) != 5:
+            continue
+        acc = a[2].as_atom() if isinstance(a[2], Poly) else None
+        if acc is None or acc[0] != "keyacc" or not isinstance(
+                acc[4], Poly):
+            continue
+        c = Poly.const(acc[4].terms.get((), 0))
+        if c.is_zero():
+            continue
+        acc2 = acc[:4] + (acc[4] - c,) + acc[5:]
+        mapping[a] = Poly.atom(("slicered", a[1], Poly.atom(acc2),
+                                a[3] - c, a[4] - c))
+    return p.subst(mapping) if mapping else p
+
+
+#: what the tie-breaker of a class measures (read off the class docs):
+#: `one` - constant 1; `count` - the items of one bin; `area` - the area of
+#: the items of one bin; `skyline` - the area under the skyline of one bin
+_TIE_KIND = {
+    "BinCount": "one", "BinCountAndLastEmpty": "count",
+    "BinCountAndEmpty": "count", "BinCountAndLastSmall": "area",
+    "BinCountAndSmall": "area", "BinCountAndLastSkyline": "skyline",
+    "BinCountAndLowestSkyline": "skyline"}
+
+
+def _poly_at(p: Poly, val: dict[str, int]) -> Fraction | None:
+    """The value of an instance-only polynomial for given field values."""
+    tot = Fraction(0)
+    for mono, c in p.terms.items():
+        t = Fraction(c)
+        for a, e in mono:
+            if a[0] == "var" and str(a[1]) in val:
+                v: Fraction | None = Fraction(val[str(a[1])])
+            elif a[0] == "app" and a[1] in ("min", "max"):
+                vs = [_poly_at(q, val) for q in a[2]]
+                if any(x is None for x in vs):
+                    return None
+                v = min(vs) if a[1] == "min" else max(vs)   # type: ignore
+            else:
+                return None
+            t *= v ** e
+        tot += t
+    return tot
+
+
+def _upper_bound_verdict(name: str, ub: Any, S: Poly) -> tuple[bool, str]:
+    """Every value S*(B-1)+T is at most the declared upper bound.
+
+    The generic bound is n_items*S (at most n_items bins, T <= S); anything
+    coefficient-wise above it is valid too.  A tighter bound is compared,
+    by evaluating the polynomial (never the program), with the values that
+    two families of feasible packings are known to have: one item that
+    fills its W x H bin (B = 1, T = its count / area / skyline area), and n
+    unit squares, one per bin, each at the top of its bin (B = n, T = 1 for
+    count and area, T = H for the skyline)."""
+    if not isinstance(ub, Poly):
+        return False, "cannot normalise the upper bound: not recognised"
+    gen = N_ITEMS * S
+    d = ub - gen
+    if all(c >= 0 for c in d.terms.values()) and not any(
+            a[0] != "var" for a in all_atoms(d)):
+        return True, (f"= n_items * {show(S)}" if d.is_zero() else
+                      f">= n_items * {show(S)} (all coefficients of the "
+                      "difference are non-negative)")
+    kind = _TIE_KIND.get(name)
+    if kind is None:
+        return False, f"tie-breaker kind of {name} is not recognised"
+    for w in (1, 2, 3, 7, 10):
+        for h in (1, 2, 3, 7, 10):
+            for n in (1, 2, 3, 5):
+                fams = [("one item filling the bin", {
+                    "INST.n_items": 1, "INST.bin_width": w,
+                    "INST.bin_height": h, "INST.total_item_area": w * h,
+                    "INST.n_different_items": 1,
+                    "INST.lower_bound_bins": 1}, 1, {
+                    "one": 1, "count": 1, "area": w * h,
+                    "skyline": w * h})]
+                if n <= w * h and n > 1:
+                    fams.append((f"{n} unit squares, one per bin, at the "
+                                 "top of the bin", {
+                        "INST.n_items": n, "INST.bin_width": w,
+                        "INST.bin_height": h, "INST.total_item_area": n,
+                        "INST.n_different_items": 1,
+                        "INST.lower_bound_bins": 1}, n, {
+                        "one": 1, "count": 1, "area": 1, "skyline": h}))
+                for what, val, bins, tmax in fams:
+                    u = _poly_at(ub, val)
+                    sv = _poly_at(S, val)
+                    if u is None or sv is None:
+                        return False, ("cannot normalise the upper bound "
+                                       "(fields besides n_items, "
+                                       "n_different_items, bin_width, bin_height, total_item_area): not "
+                                       "recognised")
+                    v = sv * (bins - 1) + tmax[kind]
+                    if u < v:
+                        return False, (
+                            f"for a {val['INST.bin_width']} x "
+                            f"{val['INST.bin_height']} bin and {what} the "
+                            f"objective value is {v} but upper_bound() "
+                            f"gives {u}: a feasible packing lies above "
+                            "the declared upper bound")
+    e = ub - S * (N_ITEMS - Poly.const(1))
+    if kind == "area" and e == Poly.atom(("app", "min", tuple(sorted(
+            (S, Poly.var("INST.total_item_area")), key=lambda q: q.key())))):
+        return True, ("= (n_items-1)*S + min(S, total_item_area): the items "
+                      "of one bin cover at most the bin and at most the "
+                      "total item area")
+    return False, (f"a bound below n_items * {show(S)} that is not "
+                   "recognised as valid for this tie-breaker: cannot decide")
+
+
 def _check_class(ctx: Ctx, cls: ClassInfo, idx_bin: int) -> None:
     repo = ctx.repo
     cm = ClassModel(ctx, cls)
@@ -320,11 +438,11 @@ def _check_class(ctx: Ctx, cls: ClassInfo, idx_bin: int) -> None:
            f"{cls.name}.to_bin_count(z) = {got}; the kernel's scale is "
            f"{show(S)}", construct=f"to_bin_count scale {cls.name}")
     fi, ub = _eval_method(ctx, cm, "upper_bound")
-    ok = isinstance(ub, Poly) and ub == N_ITEMS * S
+    ok, why = _upper_bound_verdict(cls.name, ub, S)
     ctx.ob("D2.1", fi, fi.node, ok,
            f"{cls.name}.upper_bound() = "
-           f"{show(ub) if isinstance(ub, Poly) else ub}; must be "
-           f"n_items * {show(S)}", construct=f"upper_bound scale {cls.name}")
+           f"{show(ub) if isinstance(ub, Poly) else ub}; {why}",
+           construct=f"upper_bound scale {cls.name}")
     fi, lb = _eval_method(ctx, cm, "lower_bound")
     lbv = Poly.var("INST.lower_bound_bins")
     found = False
@@ -375,7 +493,7 @@ def _check_class(ctx: Ctx, cls: ClassInfo, idx_bin: int) -> None:
         if want_t is None:
             want_t = Poly.var("<min over bins of the per-bin accumulator>")
     if want_t is not None:
-        ok = T == want_t
+        ok = T == want_t or _norm_shift(T) == _norm_shift(want_t)
         ctx.ob("D2.2", where, where.node, ok,
                f"{name}: tie-breaker T = {show(T)[:200]}" + (
                    "" if ok else f"; documented: {show(want_t)[:200]}"),
